@@ -176,9 +176,24 @@ EnumItems(node, enums) ==
   ELSE [i \in DOMAIN rv.items |-> rv.items[i].v]
 
 \* admissible kinds of a scalar node without enum: from the example literal (Check forces the type rule to agree with it)
+\* a plain type name used as an or-member or inside an inline rule-set
+KindNameVerdict(tn, v) ==
+  CASE tn = "any"     -> "accept"
+    [] tn = "string"  -> B3(v.t = "str")
+    [] tn = "integer" -> IF v.t # "num" THEN "reject" ELSE LET k == KindOfValue(v) IN IF k = "int" THEN "accept" ELSE IF k = "flt?" THEN "unspec" ELSE "reject"
+    [] tn \in {"float", "decimal"} -> B3(v.t = "num")
+    [] tn = "boolean" -> B3(v.t = "bool")
+    [] tn = "null"    -> B3(v.t = "null")
+    [] tn = "object"  -> IF v.t # "obj" THEN "reject" ELSE IF v.ps = <<>> THEN "accept" ELSE "unspec"
+    [] tn = "array"   -> IF v.t # "arr" THEN "reject" ELSE IF v.items = <<>> THEN "accept" ELSE "unspec"
+    [] tn \in Formats -> IF v.t # "str" THEN "reject" ELSE FormatVerdict(tn, v.c)
+    [] OTHER -> "unspec"
+PlainKinds == {"integer", "float", "decimal", "string", "boolean", "null"}
 KindVerdict(node, v) ==
   LET ek == ExampleKind(node)  vk == KindOfValue(v) IN
   IF v.t \in {"arr", "obj"} THEN "reject"
+  ELSE IF TypeName(node) \in PlainKinds THEN KindNameVerdict(TypeName(node), v)      \* a declared type decides the kind
+  ELSE IF TypeName(node) \in Formats THEN B3(v.t = "str")
   ELSE IF ek \in {"flt", "flt?"} THEN B3(v.t = "num")
   ELSE IF ek = "int" THEN (IF v.t # "num" THEN "reject" ELSE IF vk = "int" THEN "accept" ELSE IF vk = "flt?" THEN "unspec" ELSE "reject")
   ELSE B3(ek = vk)
@@ -201,18 +216,6 @@ Or3(S) == IF "accept" \in S THEN "accept" ELSE IF "unspec" \in S THEN "unspec" E
 HasType(env, name) == \E i \in DOMAIN env.types : env.types[i].name = name
 TypeNode(env, name) == env.types[CHOOSE i \in DOMAIN env.types : env.types[i].name = name].n
 
-\* a plain type name used as an or-member or inside an inline rule-set
-KindNameVerdict(tn, v) ==
-  CASE tn = "any"     -> "accept"
-    [] tn = "string"  -> B3(v.t = "str")
-    [] tn = "integer" -> IF v.t # "num" THEN "reject" ELSE LET k == KindOfValue(v) IN IF k = "int" THEN "accept" ELSE IF k = "flt?" THEN "unspec" ELSE "reject"
-    [] tn \in {"float", "decimal"} -> B3(v.t = "num")
-    [] tn = "boolean" -> B3(v.t = "bool")
-    [] tn = "null"    -> B3(v.t = "null")
-    [] tn = "object"  -> IF v.t # "obj" THEN "reject" ELSE IF v.ps = <<>> THEN "accept" ELSE "unspec"
-    [] tn = "array"   -> IF v.t # "arr" THEN "reject" ELSE IF v.items = <<>> THEN "accept" ELSE "unspec"
-    [] tn \in Formats -> IF v.t # "str" THEN "reject" ELSE FormatVerdict(tn, v.c)
-    [] OTHER -> "unspec"
 \* additionalProperties: "<kind>" - one JSON kind (an integer under "float" is not pinned by the statement)
 AddlKindVerdict(tn, v) ==
   IF tn \in {"float", "decimal"} /\ v.t = "num" /\ KindOfValue(v) = "int" THEN "unspec"
